@@ -273,7 +273,48 @@ var strongKinds = map[string]bool{
 	"index": true, "slice": true, "div": true, "extern-requires": true, "panic": true, "requires": true,
 	"ensures": true, "subtype": true, "invariant-entry": true, "invariant-preserved": true, "decreases": true,
 	"assert": true, "assigns": true, "make": true, "shift": true, "nil-map": true, "lemma": true, "typeinv": true,
-	"shared-write": true, "lockinv": true,
+	"shared-write": true, "lockinv": true, "nil-result": true,
+}
+
+// nilKind classifies a nil-dereference site by where the pointer comes from. A value that a callee
+// of this very function handed back (directly, as one of several results, converted, or merged
+// with other such values) and that is used without a nil test is claimed ("nil-result": the code
+// itself decides whether it checks what it was given back); receivers, parameters, fields and
+// globals are not (no nil-ness discipline is specified for this code base: kind "nil", reported
+// but unclaimed).
+func nilKind(v ssa.Value) string {
+	seen := map[ssa.Value]bool{}
+	var fromCall func(v ssa.Value) bool
+	fromCall = func(v ssa.Value) bool {
+		if seen[v] {
+			return false
+		}
+		seen[v] = true
+		switch x := v.(type) {
+		case *ssa.Call:
+			_, isBuiltin := x.Call.Value.(*ssa.Builtin)
+			return !isBuiltin
+		case *ssa.Extract:
+			return fromCall(x.Tuple)
+		case *ssa.ChangeType:
+			return fromCall(x.X)
+		case *ssa.ChangeInterface:
+			return fromCall(x.X)
+		case *ssa.MakeInterface:
+			return fromCall(x.X)
+		case *ssa.Phi:
+			for _, e := range x.Edges {
+				if fromCall(e) {
+					return true
+				}
+			}
+		}
+		return false
+	}
+	if fromCall(v) {
+		return "nil-result"
+	}
+	return "nil"
 }
 
 var functionalKinds = map[string]bool{"ensures": true, "subtype": true, "invariant-entry": true, "invariant-preserved": true,
